@@ -16,7 +16,7 @@ STUBS = []
 OUTSIDE = ["per_instance=False parameters", "copy.copy of instances", "Selector values passed as constructor keywords (check_on_set=False "
            "appends them to the objects in place, documented behaviour of Selector)", "more than 2 instances, 2 classes"]
 ASSUMPTIONS = ["values symbolic ints; bounds edits (v, 100) with v < 100"]
-N_OPS = 10
+N_OPS = 11
 
 
 def prog(inst_l: bool, k: int, o1: int, t1: int, v1: int, o2: int, t2: int, v2: int, o3: int, t3: int, v3: int,
@@ -24,12 +24,19 @@ def prog(inst_l: bool, k: int, o1: int, t1: int, v1: int, o2: int, t2: int, v2: 
     with untraced():
         class A(param.Parameterized):
             x = param.Integer(default=0)
-            l = param.List(default=[0], instantiate=inst_l)
+            l = param.List(default=[0], instantiate=inst_l, allow_refs=True)
             c = param.Parameter(default=None, constant=True)
             s = param.Selector(objects=[], check_on_set=False)
 
         class B(A):
             pass
+        class _S(param.Parameterized):
+            n = param.Integer(default=0)
+        _src = _S()
+
+        @param.depends(_src.param.n)
+        def skipping_ref(n):
+            raise param.Skip          # a reference that has nothing to deliver yet: the instance stays on its default
     classes = [A, B]
     cls_x = {0: 0, 1: None}        # B: None = follows A
     cls_doc = {0: None, 1: 'follow'}
@@ -56,6 +63,10 @@ def prog(inst_l: bool, k: int, o1: int, t1: int, v1: int, o2: int, t2: int, v2: 
             assume(len(objs) < 2)
             objs.append(classes[t](x=v))
             insts.append(dict(k=t, x=v, l=(list(shared_l) if inst_l else shared_l), b='cls', c=cls_cval(t), so=[]))
+        elif o == 10:  # create with a reference (for the list) that skips: the default must still be handled per `instantiate`
+            assume(len(objs) < 2)
+            objs.append(classes[t](l=skipping_ref))
+            insts.append(dict(k=t, x=None, l=(list(shared_l) if inst_l else shared_l), b='cls', c=cls_cval(t), so=[]))
         elif o == 1:   # instance set x
             assume(len(objs) > t)
             b = insts[t]['b']
@@ -137,7 +148,7 @@ def shards(tier):
     q = tier == 'quick'
     k = 3 if q else 4
     for inst_l in (False, True):
-        for o1 in (0, 2, 5, 8, 9):          # programs start by creating an instance or with a class-level operation
+        for o1 in (0, 2, 5, 8, 9, 10):          # programs start by creating an instance or with a class-level operation
             for t1 in (0, 1):
                 for o2 in range(N_OPS):
                     c = dict(inst_l=inst_l, k=k, o1=o1, t1=t1, o2=o2)
@@ -152,4 +163,4 @@ def bounds(tier):
     return dict(program_length=3 if tier == 'quick' else 4, instances=2, classes=2, instantiate=[False, True],
                 opcodes=['create instance', 'instance set x', 'class set x', 'in-place append', 'per-instance bounds edit',
                          'class-level Parameter attribute edit', 'per-instance Selector.objects append',
-                         'assign the identical current class default', 'class-level reassignment of the constant', 'create with kwarg'])
+                         'assign the identical current class default', 'class-level reassignment of the constant', 'create with kwarg', 'create with a skipping reference for the list'])
